@@ -296,17 +296,6 @@ class ClassInfo:
                 return c, c.methods[meth]
         return None, None
 
-    def resolve_after(self, owner, meth):
-        """super() lookup: first class after `owner` in the MRO defining `meth`"""
-        m = self.mro()
-        idx = [i for i, c in enumerate(m) if c is owner]
-        if not idx:
-            raise Unavailable("super() outside the MRO")
-        for c in m[idx[0] + 1:]:
-            if meth in c.methods:
-                return c, c.methods[meth]
-        return None, None
-
 
 class Module:
     def __init__(self, tr, relpath):
@@ -378,7 +367,8 @@ class Module:
     def cast_of(self, func):
         """fixedint type denoted by a call target, or None"""
         if isinstance(func, ast.Attribute) and isinstance(func.value, ast.Name) \
-                and func.value.id == "fixedint" and self.import_fixedint:
+                and func.value.id == "fixedint" and self.import_fixedint \
+                and "fixedint" not in self.classes and "fixedint" not in self.funcs:
             return FIXED_NAMES.get(func.attr)
         if isinstance(func, ast.Name):
             if func.id in self.fixed_alias:
@@ -821,7 +811,8 @@ class Fn:
     def ev_call(self, n, st):
         f = n.func
         ct = self.mod.cast_of(f)
-        if ct is not None and not (isinstance(f, ast.Name) and f.id in st.env):
+        if ct is not None and not (isinstance(f, ast.Name) and f.id in st.env) \
+                and not (isinstance(f, ast.Attribute) and "fixedint" in st.env):
             if len(n.args) != 1 or n.keywords:
                 raise Unavailable("fixedint cast with other than one argument")
             v = self.intval(self.ev(n.args[0], st), "cast argument")
@@ -1465,6 +1456,11 @@ class Translator:
                 except RecursionError:
                     unavailable.append({"name": "%s:%s" % (os.path.basename(rel), qual),
                                         "reason": "recursion limit", "python": loc, "base": base})
+                    continue
+                except Exception as e:  # fail closed on anything unexpected (e.g. an unparsable import)
+                    unavailable.append({"name": "%s:%s" % (os.path.basename(rel), qual),
+                                        "reason": "translator error: %s: %s" % (type(e).__name__, e),
+                                        "python": loc, "base": base})
                     continue
                 lines.append("(* python: %s  ast-sha256: %s *)" % (loc, h))
                 for dn, text, params in out:
